@@ -431,7 +431,8 @@ def _commands(name, main_c, scratch, repo, trace=True, sanity=False, unwindset=(
         pre += ["--unwindset", ",".join("%s:%d" % x for x in unwindset), "--unwinding-assertions"]
     pre += ["--drop-unused-functions", g1, g0]
     gi = ["goto-instrument", "--dfcc", "harness"]
-    if u["enforce"]:
+    if u["enforce"] is True:       # enforce == "callees": the harness calls the function directly and states
+        #                            pre/postcondition itself; only the callees are replaced by their contracts
         gi += ["--enforce-contract-rec" if u["rec"] else "--enforce-contract", u["func"]]
     for r in _replaced(u):
         gi += ["--replace-call-with-contract", r]
@@ -1301,9 +1302,8 @@ def _register_fn(U):
         "node is, for <= 3 stack entries, the closed-form fold of the stack: chunk node alone / parent(S0, CV(chunk)) / "
         "parent(S0, P(S1, CV(chunk))) / ... with bytes pending, parent(S0, S1) / parent(S0, P(S1, S2)) without: the right "
         "entries, in the right order, with key, flags | PARENT, counter 0, block_len 64",
-        props=["C06", "C07"], loops=[], pre_unwind=[("blake3.c", "blake3_hasher_finalize_seek", 0, 4)], level="bounded",
-        bounded=fin_bound,
-        defs=["-DVERIF_FN", "-DVERIF_FN_FINALIZE_BOUNDED"])
+        props=["C06", "C07"], loops=[], unwind=5, level="bounded", bounded=fin_bound, harness="blake3_hasher_finalize_seek_fn",
+        enforce="callees")
     U["blake3_hasher_finalize_fn"] = _fn(
         "blake3_hasher_finalize",
         "== finalize_seek(self, 0, out, out_len) also functionally: same root-node clause with seek = 0 (<= 3 stack entries)",
